@@ -146,7 +146,7 @@ func runC07(c *Ctx) {
 	ioFns := checkIOErrorCloses(c)
 
 	// ---------------------------------------------------------------- R4
-	c.rule("R4", "closeNotify is closed and the socket closed only inside sync.Once.Do, after closeErr is set", 6)
+	c.rule("R4", "closeNotify is closed and the socket closed only inside sync.Once.Do, after closeErr is set", 4)
 	onceClosures := map[*ssa.Function]bool{}
 	for _, f := range p.funcsIn(relTransport) {
 		eachInstr(f, func(in ssa.Instruction) {
@@ -1390,7 +1390,6 @@ func isDirectIO(in ssa.Instruction) bool {
 	return false
 }
 
-
 // sameKeyValue: two SSA values that denote the same key: identical, or the same conversion of the same value (go/ssa
 // does no common-subexpression elimination: `m[uint32(id)]` and `delete(m, uint32(id))` convert twice).
 func sameKeyValue(a, b ssa.Value) bool {
@@ -1404,7 +1403,6 @@ func sameKeyValue(a, b ssa.Value) bool {
 	}
 	return false
 }
-
 
 // closeErrStoredFor: the close error is visible to whoever is woken. Waiters that wake on the close notification need
 // the error stored BEFORE close(closeNotify). Since D30 the waiters of TraditionalDnsConn / reusableConn wake on the
